@@ -82,7 +82,7 @@ def tlc_catalogue(consts, work):
 def base_consts(tier, igns, sigs=None, pvals=None):
     thorough = tier == 'thorough'
     if sigs is None:
-        sigs = set(range(48)) if thorough else {1, 2, 3, 6, 14, 18, 22, 26, 30, 34, 42, 47}
+        sigs = set(range(48)) if thorough else {1, 2, 3, 4, 5, 6, 14, 18, 22, 26, 30, 34, 42, 47}
     if pvals is None:
         pvals = {1, 2, 3, 4, 5, 7} if thorough else {1, 2}
     return dict(SigIds=set(sigs), PVals=set(pvals), MAXP=2, MAXK=2,
